@@ -198,6 +198,10 @@ def run(ctx):
                 for k2 in kinds2:
                     cases.append({'routes': [list(k), list(k2)], 'explicit': explicit, 'fast': fast})
                     cases.append({'routes': [list(k2), list(k)], 'explicit': explicit, 'fast': fast})
+    # every letter of the alphabet through the dna() path of a real backtest, at either position
+    for g in cs:
+        cases.append({'routes': [[True, g + cs[7]]], 'explicit': None, 'fast': False})
+        cases.append({'routes': [[True, cs[5] + g]], 'explicit': None, 'fast': True})
     res = core.pmap(_session, cases, chunksize=4)
     for c, vs in zip(cases, res):
         ctx.extend(Violation.from_json(v) for v in vs)
